@@ -72,6 +72,23 @@ def frame_number_reader_rules(F, rep, P):
     rep.check(P + ".utf8", "reader: the accumulated number is shifted by 6 per continuation byte", len(shl) == 1, loc_of(b))
 
 
+def midside_parity_rules(F, rep, P):
+    """mid-side reconstruction: the parity bit restored into 2 x mid is |side| mod 2 (so that -1 gives +1), in the
+    ordinary and in the 33-bit branch alike"""
+    n = 0
+    for b in F.bodies:
+        if b.promoted is not None or b.kind != "Closure" or not b.path.startswith("decode::read_subframes::{closure"):
+            continue
+        rems = [st for bl in b.blocks for st in bl["s"] if st["rv"]["r"] == "bin" and st["rv"]["op"] == "Rem" and op_int(st["rv"]["b"]) == 2]
+        if not rems:
+            continue
+        n += 1
+        good = len(rems) == 1 and any(k == "call" and re.search(r"::(wrapping_abs|abs|unsigned_abs)$", callee_name(x)) for k, x in origins(b, rems[0]["rv"]["a"]))
+        rep.check(P + ".wide", "mid-side reconstruction in %s takes the parity from |side| %% 2" % b.path.rsplit("::", 1)[-1], good, loc_of(b), "",
+                  "the parity term of the mid-side reconstruction is `side % 2` instead of `|side| % 2`: negative odd side values give -1 and both channels come out one too low")
+    rep.floor(P + ".wide", "mid-side reconstructions (ordinary and 33-bit)", n, 2)
+
+
 def run(ctx, rep):
     F = ctx.facts()
     spec = ctx.spec("rfc9639.json")
@@ -273,3 +290,4 @@ def run(ctx, rep):
     C17.decoder_shift_rules(F, _ok, rep, "C03")
     C17.partition_guard_rules(F, _ok, rep, "C03")
     frame_number_reader_rules(F, rep, "C03")
+    midside_parity_rules(F, rep, "C03")
